@@ -605,6 +605,19 @@ pub fn run_seq(s: &mut Src, ctx: &mut Ctx) -> Verdict {
         None => join_ops(&ops),
     });
     let mut kb = KnowledgeBase::new("kb");
+    // a knowledge base that is not new (random histories of a length divisible by 3; a pure function of the case): 70
+    // other rules were added, disabled and removed before, so the version counter is in the hundreds and the index
+    // has been rebuilt many times
+    if ctx.exh == 0 && ops.len() % 3 == 0 {
+        for w in 0..70 {
+            let _ = kb.add_rule(Rule::new(format!("warm{}", w), ConditionGroup::single(Condition::new("W.x".to_string(), Operator::Equal, Value::Integer(w))), vec![]).with_salience((w % 5) as i32));
+        }
+        for w in 0..70 {
+            let _ = kb.set_rule_enabled(&format!("warm{}", w), false);
+            let _ = kb.remove_rule(&format!("warm{}", w));
+        }
+        ctx.label("knowledge-base-not-new(warm-up)");
+    }
     let mut m = Model::new(kb.version());
     if let Some(v) = observe_all(&kb, &mut m, "new", At::Empty) {
         return v;
